@@ -277,6 +277,99 @@ example :
     (packWithPrefix exReplyOld 40 exReplyOld).1 = 0 :: 40 :: exReplyOld ∧
     (packUDP exReplyOld 40 [1, 2, 3]).1 = [1, 2, 3] := by decide
 
+/-! ## Request side of an upstream exchange: the bytes written are the request itself
+
+The reply buffer of `UpstreamPlain` is also the buffer the request is packed into.  The unchanged
+code wrote `buf[:Len()]` although `PackBuffer` had packed into a NEW array whenever the pooled buffer
+had no byte to spare (a request of exactly 4096 bytes over UDP, 65533 over TCP): the upstream then
+received 4096 bytes of earlier exchanges (other clients' replies).  On a retry after a connection
+that broke in the middle of a reply it wrote the buffer as the failed read had left it.  Both are
+repaired by one `fix:` commit; the theorems are about the code after it, the counter-examples about
+the code before. -/
+
+/-- **request_own_bytes.**  Whatever the pooled buffer held (any residue), whatever `PackBuffer`'s
+in-place rule is (`spare`), whenever `packReq` succeeds the bytes `conn.Write(buf[:n])` sends are
+exactly the packed request (after its 2-byte length over TCP). -/
+theorem request_own_bytes (spare : Nat) (tcp : Bool) (buf packed : Bytes) (r : Nat × Bytes)
+    (h : packReq spare tcp buf packed = some r) : sentReq r = frameReq tcp packed :=
+  packReq_sent spare tcp buf packed r h
+
+/-- **request_history_unobservable.**  After ANY history of earlier messages, whichever pooled
+buffer `sync.Pool` hands out, what is written to the upstream (or the refusal `ErrBuf`) equals what
+a freshly started server writes, namely the packed request iff it fits the configured size. -/
+theorem request_history_unobservable (c : Cfg) (hist : List Op) (p : Path) (hp : p ≠ .tcp)
+    (pick : Option Nat) (s₁ s₂ : Nat) (tcp : Bool) (packed : Bytes) :
+    (packReq s₁ tcp (takeBuf (c.size p) ((run (Server.init c) hist).free p) pick).1 packed).map sentReq =
+      (packReq s₂ tcp (zeros (c.size p)) packed).map sentReq ∧
+    (packReq s₂ tcp (zeros (c.size p)) packed).map sentReq =
+      if packed.length + (if tcp then 2 else 0) ≤ c.size p then some (frameReq tcp packed) else none := by
+  have hw := wf_run _ hist (wf_init c)
+  have hl := takeBuf_length (c.size p) ((run (Server.init c) hist).free p) pick
+    (by intro b hb; have := hw p hp b hb; rw [run_cfg] at this; exact this)
+  rw [packReq_map_sent, packReq_map_sent, hl, length_zeros]
+  exact ⟨rfl, rfl⟩
+
+/-- **retry_request_own_bytes.**  When the first attempt breaks after ANY bytes `part` of a reply
+have been read into the buffer, the second attempt still writes exactly the packed request. -/
+theorem retry_request_own_bytes (spare : Nat) (tcp : Bool) (buf packed part : Bytes) :
+    retryWrites spare tcp buf packed part =
+      if packed.length + (if tcp then 2 else 0) ≤ buf.length
+      then some (frameReq tcp packed, frameReq tcp packed) else none := by
+  unfold retryWrites
+  have h1 := packReq_map_sent spare tcp buf packed
+  by_cases hfit : packed.length + (if tcp then 2 else 0) ≤ buf.length
+  · rw [if_pos hfit] at h1 ⊢
+    cases hr : packReq spare tcp buf packed with
+    | none => rw [hr] at h1; cases h1
+    | some r =>
+      rw [hr] at h1
+      have hlen := packReq_length spare tcp buf packed r hr
+      have h2 := packReq_map_sent spare tcp (overwrite r.2 part) packed
+      rw [length_overwrite, hlen, if_pos hfit] at h2
+      cases hr2 : packReq spare tcp (overwrite r.2 part) packed with
+      | none => rw [hr2] at h2; cases h2
+      | some r2 =>
+        rw [hr2] at h2
+        injection h1 with h1
+        injection h2 with h2
+        simp only [hr2, h1, h2]
+  · rw [if_neg hfit] at h1 ⊢
+    cases hr : packReq spare tcp buf packed with
+    | none => rfl
+    | some r => rw [hr] at h1; cases h1
+
+/-- **packreq_old_counterexample.**  Before the fix (`_, err = req.PackBuffer(buf)`): a request that
+fills the buffer exactly is packed elsewhere and the upstream is sent the residue. -/
+theorem packreq_old_counterexample :
+    ¬ ∀ (buf packed : Bytes) (r : Nat × Bytes),
+        packReqOld 1 false buf packed = some r → sentReq r = frameReq false packed := by
+  intro h
+  have := h [9, 9, 9, 9] [1, 2, 3, 4] _ rfl
+  revert this
+  decide
+
+/-- What the old code sends in that case: the other exchange's bytes, not one byte of the request. -/
+theorem packreq_old_leaks_residue :
+    (packReqOld 1 false exReplyOld (exReplyOld.map (· + 1))).map sentReq = some exReplyOld ∧
+    (packReq 1 false exReplyOld (exReplyOld.map (· + 1))).map sentReq = some (exReplyOld.map (· + 1)) := by
+  decide
+
+/-- **retry_old_counterexample.**  Before the fix the second write carried the partial reply. -/
+theorem retry_old_counterexample :
+    retryWritesOld 1 true (zeros 12) [1, 2, 3, 4, 5, 6] [0xEE, 0xEE, 0xEE, 0xEE] =
+      some ([0, 6, 1, 2, 3, 4, 5, 6], [0xEE, 0xEE, 0xEE, 0xEE, 3, 4, 5, 6]) ∧
+    retryWrites 1 true (zeros 12) [1, 2, 3, 4, 5, 6] [0xEE, 0xEE, 0xEE, 0xEE] =
+      some ([0, 6, 1, 2, 3, 4, 5, 6], [0, 6, 1, 2, 3, 4, 5, 6]) := by decide
+
+/-- Non-vacuity: `packReq` succeeds on a buffer full of another exchange's reply, in place
+(`spare` bytes left) and out of place (buffer filled exactly), over UDP and TCP. -/
+example :
+    (packReq 1 false exReplyOld [1, 2, 3]).map sentReq = some [1, 2, 3] ∧
+    (packReq 1 true exReplyOld [1, 2, 3]).map sentReq = some [0, 3, 1, 2, 3] ∧
+    (packReq 1 true exReplyOld (exReplyOld.drop 2)).isSome = true ∧
+    packBufferInto 1 (exReplyOld.drop 2) (exReplyOld.drop 2) = exReplyOld.drop 2 ∧
+    (packReq 1 true exReplyOld (exReplyOld.drop 1)) = none := by decide
+
 #print axioms decode_own_bytes
 #print axioms history_unobservable
 #print axioms histories_indistinguishable
@@ -295,9 +388,16 @@ example :
 #print axioms early_put_counterexample
 #print axioms resp_udp_own_bytes
 #print axioms resp_prefixed_own_bytes
+#print axioms request_own_bytes
+#print axioms request_history_unobservable
+#print axioms retry_request_own_bytes
+#print axioms packreq_old_counterexample
+#print axioms packreq_old_leaks_residue
+#print axioms retry_old_counterexample
 
 end Agd.Buffers
 #print axioms Agd.Tie.TrC06.translation_complete
 #print axioms Agd.Tie.TrC06.quic_decodes_own_bytes
 #print axioms Agd.Tie.TrC06.upstream_decodes_read_bytes
 #print axioms Agd.Tie.TrC06.tcp_buffer_sized_by_prefix
+#print axioms Agd.Tie.TrC06.exchange_packs_before_every_write
